@@ -82,7 +82,11 @@ SanityDepth == ~(Complete /\ \E i \in Entries, d \in Depths : ResolveOp(g, i, d)
 
 KindStr(k) == IF k.k \in LinkForms THEN <<k.k, k.to>> ELSE <<k.k, 0>>
 DepthSeq == [d \in 0..6 |-> d]
+\* the view below the deleting layer: the entry is still the regular file it was
+Below(gr) == [i \in Entries |-> IF gr[i].k = "deleted" THEN [k |-> "file"] ELSE gr[i]]
+\* the two views of one image share nodes: the answer in one view never depends on what was asked of the other
 Case == [kinds |-> [i \in Entries |-> KindStr(g[i])],
-         expect |-> [d \in Depths |-> [i \in Entries |-> Allowed(g, i, d)]]]
+         expect |-> [d \in Depths |-> [i \in Entries |-> Allowed(g, i, d)]],
+         expect0 |-> [d \in Depths |-> [i \in Entries |-> Allowed(Below(g), i, d)]]]
 Emit == Complete => PrintT(ToJson(Case))
 =============================================================================
